@@ -47,7 +47,7 @@ def feasible(pc):
 def satisfiable(pc):
     """Cover query: 'sat' / 'unsat' / 'unknown'."""
     s = z3.Solver()
-    s.set('timeout', Z3_TIMEOUT_MS)
+    s.set('timeout', 2000)
     s.add(*pc)
     r = s.check()
     return str(r)
